@@ -87,7 +87,10 @@ impl DcpsDomainParticipant {
             entity_id.entity_key()[2],
             entity_id.entity_kind(),
         ]);
-        self.writer_counter += 1;
+        self.writer_counter = self
+            .writer_counter
+            .checked_add(1)
+            .ok_or(DdsError::OutOfResources)?;
 
         let qos = match qos {
             QosKind::Default => publisher.default_datawriter_qos.clone(),
